@@ -2160,7 +2160,9 @@ class LazyStackedTensorDict(TensorDictBase):
                 {},
                 batch_size=batch_size,
                 device=device if device is not NO_DEFAULT else self.device,
-                names=names if names else self._maybe_names(),
+                # as for a regular tensordict, the dim names do not survive a batch_size override
+                # (self's names describe self's batch dims, not the new ones)
+                names=names if names is not NO_DEFAULT else None,
             )
             return TensorDict._apply_nest(
                 self,
